@@ -19,9 +19,8 @@ Local Open Scope nat_scope.
    operation of {new, set, replace, delete, bulk update, read hash, forced
    update, entries, to_model, collect, reset}, for every set oracle. *)
 Theorem C14_inv_step : forall NH : bytes -> list entry -> bytes,
-  (forall d es, NH d es <> []) ->
   forall (rp : set_oracle) (s : heap) (rep : list report) (o : op),
-  InvC NH s rep -> guard NH true s o ->
+  InvC NH s rep -> guard NH true false s o ->
   InvC NH (fst (gstep NH rp s rep o)) (snd (gstep NH rp s rep o)).
 Proof. exact gstep_inv. Qed.
 Print Assumptions C14_inv_step.
@@ -31,9 +30,8 @@ Print Assumptions C14_inv_step.
    from-scratch hash of n in the current structure (m is the node the set kept
    for n: n itself or a node that was == n with the same hash when reported). *)
 Theorem C14_complete : forall NH : bytes -> list entry -> bytes,
-  (forall d es, NH d es <> []) ->
   forall (rp : set_oracle) (s : heap) (rep : list report) (root : nat),
-  greach NH rp s rep -> guard NH true s (OCollect root) ->
+  greach NH rp s rep -> guard NH true false s (OCollect root) ->
   let s' := fst (gstep NH rp s rep (OCollect root)) in
   let rep' := snd (gstep NH rp s rep (OCollect root)) in
   forall n, Reach s' root n -> exists hv m, Fresh NH s' n hv /\ In (m, hv, n) rep'.
@@ -43,22 +41,20 @@ Print Assumptions C14_complete.
 (* Once: collecting again without an intervening change returns nothing and
    changes nothing. *)
 Theorem C14_idempotent : forall NH : bytes -> list entry -> bytes,
-  (forall d es, NH d es <> []) ->
   forall (rp : set_oracle) (s : heap) (rep : list report) (root : nat),
-  greach NH rp s rep -> guard NH true s (OCollect root) -> root < length s ->
-  let s' := fst (step NH true s (OCollect root)) in
-  step NH true s' (OCollect root) = (s', OutNodes []).
+  greach NH rp s rep -> guard NH true false s (OCollect root) -> root < length s ->
+  let s' := fst (step NH true false s (OCollect root)) in
+  step NH true false s' (OCollect root) = (s', OutNodes []).
 Proof. exact collect_idempotent. Qed.
 Print Assumptions C14_idempotent.
 
 (* After reset_collect(root), collect(root) succeeds and returns every node of
    the sub-DAG of root (before the set's deduplication). *)
 Theorem C14_reset : forall NH : bytes -> list entry -> bytes,
-  (forall d es, NH d es <> []) ->
   forall (rp : set_oracle) (s : heap) (rep : list report) (root : nat),
-  greach NH rp s rep -> guard NH true s (OReset root) -> root < length s ->
-  let s1 := fst (step NH true s (OReset root)) in
-  exists L, snd (step NH true s1 (OCollect root)) = OutNodes L /\
+  greach NH rp s rep -> guard NH true false s (OReset root) -> root < length s ->
+  let s1 := fst (step NH true false s (OReset root)) in
+  exists L, snd (step NH true false s1 (OCollect root)) = OutNodes L /\
             forall n, Reach s1 root n -> In n L.
 Proof. exact reset_then_collect. Qed.
 Print Assumptions C14_reset.
@@ -76,7 +72,7 @@ Print Assumptions C14_reports_sound.
    history (4 collects, 1 reset, mutations in between) is guarded and produces
    at least 10 reports. *)
 Theorem C14_guards_satisfiable :
-  oracle_ok id_oracle /\ (forall d es, NH0 d es <> []) /\ guarded NH0 true [] h_diamond /\
-  10 <=? length (snd (grun NH0 true id_oracle [] [] h_diamond)) = true.
+  oracle_ok id_oracle /\ guarded NH0 true false [] h_diamond /\
+  10 <=? length (snd (grun NH0 true false id_oracle [] [] h_diamond)) = true.
 Proof. exact c14_satisfiable. Qed.
 Print Assumptions C14_guards_satisfiable.
